@@ -63,7 +63,8 @@ func (ws *WritingState) ComputeState() *WritingState {
 	copyState.ExperimentStateLabel = ws.ExperimentStateLabel
 	copyState.ExperimentStateLabelUnixNano = ws.ExperimentStateLabelUnixNano
 	copyState.ExternalTriggerFilename = ws.ExternalTriggerFilename
-	copyState.externalTriggerNumberObserved = ws.externalTriggerNumberObserved
+	// externalTriggerNumberObserved is NOT copied: it is the core loop's running counter, updated with every data
+	// block without this lock, and no user of the copy needs it (reading it here was a data race with the core loop).
 	copyState.WriteLJH22 = ws.WriteLJH22
 	copyState.WriteLJH3 = ws.WriteLJH3
 	copyState.WriteOFF = ws.WriteOFF
